@@ -530,7 +530,11 @@ def make_builtins(I):
             if all(k.is_number for k in ks):
                 i = min(range(len(ks)), key=lambda j: ks[j])
                 return items[i]
-            raise AnalysisError("min with key over symbolic values")
+            # symbolic keys: use the ordering facts supplied by the rule (I.positive)
+            for i in range(len(ks)):
+                if all(i == j or compare(I, ast.LtE() if i < j else ast.Lt(), ks[i], ks[j]) is True for j in range(len(ks))):
+                    return items[i]
+            raise AnalysisError("min with key over symbolic values whose order is not known")
         if not items:
             raise SymRaise("ValueError", "min of empty sequence")
         es = [to_expr(x) for x in items]
